@@ -1,11 +1,11 @@
 (* C14 spec driver.  Line protocol (one request per line, S-expression syntax after the verb):
      graph ((name...) (iset...) (def...) ((ext int)...)) ...   -> "ok"        sets the current library graph
-     denote <iset>                                              -> "ERR" | "n>m n>m ..." (| "_" when empty)
+     denote <iset>                                              -> "ERR" | "n<TAB>m n<TAB>m ..." (| "_" when empty)
      origin (<iset> ...) (name ...)                             -> one token per name: O:<lib.with.dots>:<m> | U | A | E
      frames (<iset> ...)                                        -> Env.env_import folded over the import sets from one empty frame (the
                                                                    exporter binds every listed internal name): per frame, innermost first,
                                                                    "(k1 k2 ...)" = its rename keys in the order env-exports lists them; ERR on import error
-     history ((lib (import ...)) ...) (req ...)                 -> Load.run_history from the initial state (libraries are numbers):
+     history ((lib (import ...)) ...) ((kind req) ...)          -> Importers.run from the booted world (libraries are numbers; kind = importer):
                                                                    one outcome per request D | S<l> | N<l> | F, then " | " and the
                                                                    libraries whose body was evaluated, oldest first
      closed (<iset> ...) (<wrapper> ...) (name ...)            -> SynClo.closed_probe: per name the definition a plain symbol resolves to in
@@ -122,7 +122,7 @@ let handle (line : ostring) : ostring =
       (match denote (world_of !graph) (iset_of i) with
        | None -> "ERR"
        | Some [] -> "_"
-       | Some l -> oconcat " " (List.map (fun (a, b) -> sym a ^ ">" ^ sym b) l))
+       | Some l -> oconcat " " (List.map (fun (a, b) -> sym a ^ "\t" ^ sym b) l))
   | "origin", [L isets; names] ->
       let is = List.map iset_of isets in
       oconcat " " (List.map (fun nm -> show_origin (program_origin !graph is nm)) (atoms names))
@@ -170,10 +170,48 @@ let handle (line : ostring) : ostring =
                            | None -> "?")
              | None -> "?") in
       oconcat " " (("W:" ^ oconcat "," (List.rev !kinds)) :: List.map (fun nm -> show (closed_probe !graph is wd nm)) (atoms names))
+  | "inside", [lib; names] ->
+      (* Spec.lib_origin: what an internal name denotes INSIDE a library (the literals of its macros) *)
+      let l = atoms lib in
+      oconcat " " (List.map (fun nm -> show_origin (lib_origin !graph (nat_of_int (List.length !graph + 1)) l nm)) (atoms names))
+  | "ideq", [L isets; mls; names] ->
+      (* IdEq.literal_probe: per ml (visible name of an mlit/elit macro; the SPEC says which library D defines it) one group, per name
+         three digits: identifier_eq of the name in the program against D's lit / else / => *)
+      let is = List.map iset_of isets in
+      let st = int_of_nat stride in
+      let macro_defs = ["m1"; "wif"; "wifx"; "w0"; "erw"; "lit"; "mlit"; "elit"] in
+      let plain (c : nat) : bool =
+        match c with
+        | O -> false
+        | S k ->
+            let k = int_of_nat k in
+            let j = k / st and d = k mod st in
+            (match List.nth_opt !graph j with
+             | Some ld ->
+                 if List.map ostring_of_coq ld.ld_name = ["scheme"; "base"] then false
+                 else (match List.nth_opt ld.ld_defs d with
+                       | Some m -> not (List.mem (ostring_of_coq m) macro_defs)
+                       | None -> false)
+             | None -> false) in
+      let c = coq_of_ostring in
+      oconcat " | " (List.map (fun ml ->
+        match program_origin !graph is ml with
+        | Origin (dl, _) ->
+            oconcat " " (List.map (fun nm ->
+              oconcat "" (List.map (fun lit -> if literal_probe plain !graph is dl (c lit) nm then "1" else "0") ["lit"; "else"; "=>"])) (atoms names))
+        | _ -> oconcat " " (List.map (fun _ -> "???") (atoms names))) (atoms mls))
   | "history", [L defs; L reqs] ->
+      (* Importers.run from the booted world: requests are (kind lib); the module table belongs to the world, so the
+         kind of importer (second standard environments included) must not matter *)
       let d = List.map (function L [n; L imps] -> (num n, List.map num imps) | _ -> failwith "defs entry") defs in
-      let (st, tr) = run_history (nat_of_int 64) d init_state (List.map num reqs) in
-      oconcat "," (List.map (fun (o, _) -> show_outcome o) tr) ^ " | " ^
+      let kind = function
+        | "environment" -> ByEnvironment | "interaction" -> ByEvalImport | "load-file" -> ByLoadFile | "load-port" -> ByLoadPort
+        | "include" -> ByInclude | "program" -> ByProgram | "standard-env" -> ByNewStandardEnv | "library" -> ByLibrary
+        | _ -> failwith "importer kind" in
+      let rq = List.map (function L [A k; n] -> (kind k, num n) | (A _ as n) -> (ByEnvironment, num n) | _ -> failwith "request") reqs in
+      let (w, os) = run (nat_of_int 64) d boot rq in
+      let st = table_state w in
+      oconcat "," (List.map show_outcome os) ^ " | " ^
       oconcat "," (List.rev_map (fun l -> string_of_int (int_of_nat l)) st.evals)
   | _ -> "ERR bad request"
 
